@@ -10,7 +10,8 @@
 (*   ScanNext       scan.Next()                                                                                   *)
 (*   Post           the HTTP request reaches the remote (which picks its answer from the script)                  *)
 (*   HandleStatus   writer.Write evaluates the answer; failedWrites++ and return WITHOUT advancing on error;      *)
-(*                  on success failedWrites=0 and (only if the 10 s ticker fired) a periodic scan.Advance         *)
+(*                  on success failedWrites=0 and (only if the 10 s ticker fired) a periodic scan.Advance, after   *)
+(*                  which the call returns (0,true) (repair of F38; PeriodicFix=FALSE keeps the code as found)     *)
 (*   FinalAdvance   scan.Advance() after the scan loop (with trimHead at end of segment), return (0,true)         *)
 (*   (return)       the sendWrite closure of run(): !shouldRetry => timer off; wait=0 => call SendWrite again;    *)
 (*                  else arm the retry timer with the returned wait                                               *)
@@ -34,6 +35,9 @@ CONSTANTS MaxBatches,   \* batches 1..MaxBatches; the number is the enqueue orde
           MaxTicks,     \* bound on the clock
           SegCap,       \* blocks per queue segment
           PeriodicAdv,  \* BOOLEAN: the 10 s in-scan ticker may fire
+          PeriodicFix,  \* BOOLEAN: TRUE = repaired code: after an in-scan (periodic) Advance the call returns (0,true) and
+                        \* run() re-enters with a fresh scanner.  FALSE = as found (finding F38): the scan goes on with
+                        \* the old scanner even when the Advance trimmed its segment (lead config Lead_periodic)
           EnqAnywhere,  \* BOOLEAN: see deviation (1)
           Record        \* BOOLEAN: keep the history variables (generation configs); FALSE in checking configs
 
@@ -150,15 +154,16 @@ TimerFire == /\ pc = "idle" /\ timer # Inf
              /\ KeepH
 
 \* return from SendWrite into the sendWrite closure of run(); segs1/f1 are the values after the call
-Return(w, retry, segs1, f1) ==
+ReturnC(w, retry, segs1, f1, c) ==      \* c: the record of the call that ends
   LET t1 == IF ~retry THEN Inf ELSE IF w = 0 THEN Inf ELSE w
       again == retry /\ w = 0
   IN /\ timer' = t1
      /\ pc' = IF again THEN "start" ELSE "idle"
      /\ trig' = IF again THEN "loop" ELSE "none"
      /\ call' = NoCall
-     /\ Log([a |-> "send", trig |-> trig, posts |-> call.posts, wait |-> w, retry |-> retry, forced |-> call.dead,
+     /\ Log([a |-> "send", trig |-> trig, posts |-> c.posts, wait |-> w, retry |-> retry, forced |-> c.dead,
              exp |-> ObsOf(segs1, f1, t1, sig)])
+Return(w, retry, segs1, f1) == ReturnC(w, retry, segs1, f1, call)
 
 \* ------------------------------------------------------------------ SendWrite
 StartScan ==
@@ -210,13 +215,18 @@ HandleStatus ==
                          !.drp = @ /\ (res.drp => (resp = "400" /\ cfg.drop))]
           /\ \E tick \in (IF PeriodicAdv THEN BOOLEAN ELSE {FALSE}) :
                IF tick
-               THEN LET a == AdvanceTo(sc.pos) IN
-                    /\ segs' = a.segs
-                    /\ sc' = [sc EXCEPT !.dead = a.trimmed]
-                    /\ call' = IF Record THEN [call EXCEPT !.posts[Len(call.posts)].tick = TRUE, !.dead = a.trimmed] ELSE call
-               ELSE UNCHANGED <<segs, sc, call>>
-          /\ pc' = "next"
-          /\ UNCHANGED <<timer, trig, hist>>
+               THEN LET a == AdvanceTo(sc.pos)                      \* the ticker fired: advanceScanner() inside the scan
+                        c == IF Record THEN [call EXCEPT !.posts[Len(call.posts)].tick = TRUE] ELSE call
+                    IN /\ segs' = a.segs
+                       /\ IF PeriodicFix
+                          THEN /\ ReturnC(0, TRUE, a.segs, 0, c)    \* repaired: (0,true), fresh scanner in the next call
+                               /\ UNCHANGED sc
+                          ELSE /\ sc' = [sc EXCEPT !.dead = a.trimmed]  \* as found: keeps scanning with this scanner
+                               /\ call' = IF Record THEN [c EXCEPT !.dead = a.trimmed] ELSE call
+                               /\ pc' = "next"
+                               /\ UNCHANGED <<timer, trig, hist>>
+               ELSE /\ pc' = "next"
+                    /\ UNCHANGED <<segs, sc, call, timer, trig, hist>>
      ELSE /\ failed' = failed + 1
           /\ flags' = [flags EXCEPT !.wait = @ /\ res.wait = ContractWait(resp, failed)]   \* monitor: delay rule
           /\ Return(res.wait, TRUE, segs, failed + 1)                   \* "Do not advance the scanner"
